@@ -669,6 +669,13 @@ VTWINS = [
     ("schema.float(1e15).precision(1)", "1e15 + 0.125"), ("schema.float(-98765.4321).precision(6)", "-98765.432101"),
     ("schema.list(schema.float(1234.5).precision(6))", "[1234.5, 1234.500001]"),
     ("schema.float(1234.5).precision(6)", "1234.5"), ("schema.float(1234.5)", "1234.500001"), ("schema.float(1234.5)", "1234.5000000001"),
+    # text that is canonically equivalent but not equal (combining characters): compared code point by code point
+    ("schema.str.len(5)", "'cafe\u0301'"), ("schema.str.len(4)", "'cafe\u0301'"), ("schema.str('caf\u00e9')", "'cafe\u0301'"),
+    ("schema.str('cafe\u0301')", "'caf\u00e9'"), ("schema.str.alphabet('acef\u0301')", "'cafe\u0301'"),
+    ("schema.str.alphabet('acf\u00e9')", "'cafe\u0301'"), ("schema.str.contains('\u0301')", "'cafe\u0301'"),
+    ("schema.str.contains('\u00e9')", "'cafe\u0301'"), ("schema.str.regex('e\u0301$')", "'cafe\u0301'"),
+    ("schema.list(schema.str.len(1))", "['\u00e9', 'e\u0301']"), ("schema.dict({'k': schema.str.len(2, ...)})", "{'k': 'e\u0301'}"),
+    ("schema.str.len(1)", "'\ufb01'"), ("schema.str.alphabet('fi')", "'\ufb01'"), ("schema.str('\u212b')", "'\u00c5'"),
     # many errors at once (every one is reported, rendered and counted)
     ("schema.list(schema.int)", "['x'] * 25"), ("schema.list(schema.int.min(5))", "list(range(-30, 5))"),
     ("schema.dict({%s})" % ", ".join(f"'k{i}': schema.int" for i in range(30)), "{}"),
